@@ -37,8 +37,18 @@ REFIT = ('fit', 'poisson_fit', 'gridsearch', 'poisson_gridsearch', 'fit_quantile
 # --------------------------------------------------------------------------------------------
 # transport
 # --------------------------------------------------------------------------------------------
+_ENC = {}
+
+
 def enc_val(v):
     v = float(v)
+    r = _ENC.get(v)
+    if r is None:
+        r = _ENC[v] = _enc_val(v)
+    return r
+
+
+def _enc_val(v):
     if v != v:
         return 'nan'
     if v == INF:
@@ -432,11 +442,14 @@ def do_call(gam, entry, A, cont):
     raise KeyError(entry)
 
 
-def positions(n, rng, full):
+def positions(n, rng, mode):
+    """sampled positions: 'full' = every index, 'four' = first / middle / last / random, 'one' = one random index"""
     if n <= 0:
         return []
-    if full:
+    if mode == 'full' or mode is True:
         return list(range(n))
+    if mode == 'one':
+        return [rng.choice([0, n // 2, n - 1, rng.randrange(n)])]
     return sorted({0, n // 2, n - 1, rng.randrange(n)})
 
 
@@ -463,19 +476,19 @@ def corruptions(entry, args, base, prog, cfg, state, rng, full):
             yield (arg, 'wide', None, mod(**{arg: [list(r) + [0.5] for r in M]}))
             if w > 1:
                 yield (arg, 'narrow', None, mod(**{arg: [list(r)[:-1] for r in M]}))
-            if arg == 'X' and ('y' in args or 'exposure' in args):
+            if arg == 'X' and ('y' in args or base.get('exposure') is not None):
                 yield (arg, 'short', None, mod(X=[list(r) for r in M[:-1]]))
                 yield (arg, 'long', None, mod(X=[list(r) for r in M] + [list(M[0])]))
                 yield (arg, 'len1', None, mod(X=[list(M[0])]))
-            if arg == 'X' and 'y' not in args and 'exposure' not in args:
+            if arg == 'X' and 'y' not in args and base.get('exposure') is None:
                 yield (arg, 'onerow', None, mod(X=[list(M[rng.randrange(rows)])]))
             for c in catcols:
-                col = [r[c] for r in M]
+                col = [0.0, 2.0]  # the categories of every training set are 0, 1, 2 (gen_data)
                 lo, hi = min(col) - 0.5, max(col) + 0.5
                 for kind, val in (('cat_out', max(col) + 1.0), ('cat_out', min(col) - 1.0),
                                   ('cat_out', float(np.nextafter(hi, INF))), ('cat_out', float(np.nextafter(lo, -INF))),
                                   ('cat_edge', hi), ('cat_edge', lo), ('cat_gap', min(col) + 0.25)):
-                    p = rng.choice(positions(rows, rng, False))
+                    p = rng.choice(positions(rows, rng, 'four'))
                     M2 = [list(r) for r in M]
                     M2[p][c] = val
                     yield (arg, kind, p * w + c, mod(**{arg: M2}))
@@ -497,11 +510,12 @@ def corruptions(entry, args, base, prog, cfg, state, rng, full):
             yield (arg, 'empty', None, mod(y=[]))
             outs = []
             if cfg.link == 'log':
-                outs = [-1.0, -0.25, float(np.nextafter(0, -INF))]
+                # (PoissonGAM divides y by the exposure first: keep clear of underflow to -0.0 there)
+                outs = [-1.0, -0.25, -2.0 ** -1000 if entry in ('poisson_fit', 'poisson_gridsearch') else float(np.nextafter(0, -INF))]
             elif cfg.link == 'logit':
                 outs = [-1.0, -0.25, cfg.levels + 1.0, float(np.nextafter(cfg.levels, INF)), float(np.nextafter(0, -INF))]
             for val in outs:
-                for p in positions(len(v), rng, False)[:: 1 if full else 2]:
+                for p in (positions(len(v), rng, 'four') if full == 'full' else positions(len(v), rng, 'one')):
                     v2 = list(v)
                     v2[p] = val
                     yield (arg, 'ydomain', p, mod(y=v2))
@@ -535,6 +549,18 @@ def corruptions(entry, args, base, prog, cfg, state, rng, full):
             yield (arg, 'len1', None, mod(**{arg: [v[0]]}))
             yield (arg, 'empty', None, mod(**{arg: []}))
             if arg == 'exposure' and entry in ('poisson_fit', 'poisson_gridsearch'):
+                # finite weights and exposure whose product overflows float32; finite y / exposure that overflows float64
+                p = rng.randrange(len(v))
+                v2 = list(v)
+                v2[p] = 1e30
+                w2 = list(base['weights']) if base.get('weights') is not None else [1.0] * n
+                w2[p] = 1e30
+                yield (arg, 'prodover', p, mod(exposure=v2, weights=w2))
+                v2 = list(v)
+                v2[p] = 2.0 ** -60
+                y2 = list(base['y'])
+                y2[p] = 1e300
+                yield (arg, 'scaledover', p, mod(exposure=v2, y=y2))
                 for kind, val in (('expo_zero', 0.0), ('expo_neg', -1.0)):
                     p = rng.randrange(len(v))
                     # make sure the target at that position is positive so that the class of y/exposure is determined
@@ -545,7 +571,7 @@ def corruptions(entry, args, base, prog, cfg, state, rng, full):
                     yield (arg, kind, p, mod(exposure=v2, y=y2))
 
 
-def allowed(entry, arg, kind, state, prog):
+def allowed(entry, arg, kind, state, prog, A=None):
     """the property text, independent of the model: the set of acceptable exception classes"""
     needs_fit = entry not in REFIT
     termfeats = prog[2]
@@ -561,6 +587,9 @@ def allowed(entry, arg, kind, state, prog):
         verdict = 'must' if needs_fit else 'na'
     else:
         verdict = 'na'
+    if arg == 'sample_at_X' and A is not None and A.get('quantity') == 'coef' and verdict == 'must':
+        # sample(quantity='coef') never reads sample_at_X: nothing is computed from the invalid array
+        verdict = 'na'
     unf = state != 'fitted'
     if unf and needs_fit:
         if verdict == 'valid':
@@ -575,12 +604,18 @@ def allowed(entry, arg, kind, state, prog):
 
 def known_gap(entry, arg, kind, state, A, impl):
     """remaining gaps of the tree under test against the property text (reported as suspected defects, see final report)"""
+    if impl == 'AttributeError@gridsearch' and entry in ('gridsearch', 'poisson_gridsearch'):
+        return ('G5 gridsearch: when every candidate score is NaN no best model is recorded and '
+                '`best_model.get_params` raises AttributeError on valid data')
     if impl != 'ok':
         return None
     if entry in ('loglikelihood', 'poisson_loglikelihood') and kind == 'len1' and arg in ('X', 'y') and state == 'fitted':
         return 'G1 loglikelihood broadcasts a length-1 X or y against the other instead of rejecting the length mismatch'
     if entry == 'fit_quantile' and state == 'fitted' and arg == 'weights' and A.get('converged'):
         return 'G2 fit_quantile on a fitted model whose quantile ratio is already within tol never looks at weights'
+    if entry in ('gridsearch', 'poisson_gridsearch') and state == 'fitted' and arg == 'X' and kind == 'narrow' and impl == 'ok':
+        return ('G4 gridsearch on a fitted model swallows the ValueError of every candidate fit (X lacks a feature the terms need) '
+                'and returns the old model')
     return None
 
 
@@ -618,51 +653,55 @@ def fit_descr(prog, Xtr):
 def entry_cases(ctx, cfgs, progs, tier, only=None):
     """generate every case of the entry-point stream (deterministic in seed and tier)"""
     thorough = tier == 'thorough'
-    n = 20 if thorough else 14
-    prog_names = list(progs)
+    n = 16 if thorough else 12
+    rot = ['sf', 'te', 'by', 'lf', 'auto', 'sf', 'te']
     cases = []
     for ci, cfg in enumerate(cfgs):
-        if thorough:
-            pn = prog_names
-        else:
-            pn = ['sf', prog_names[1 + (ci + ctx.seed) % (len(prog_names) - 1)]]
+        pn = list(progs) if thorough else [rot[(ci + ctx.seed) % len(rot)]]
         for pname in pn:
             prog = progs[pname]
             rng = ctx.subrng('entry', cfg.name, pname)
-            Xtr, ytr, wtr, etr = gen_data(rng, n, prog[1], prog[4], cfg.ykind)
+            Xtr, ytr, wtr, etr = gen_data(rng, 60, prog[1], prog[4], cfg.ykind)
             E = entries_for(cfg)
             for entry, args in E.items():
-                for state in ('fitted', 'fresh', 'failedfit'):
-                    full = thorough and state == 'fitted' and pname == 'sf'
+                r1 = ctx.subrng('entry-states', cfg.name, pname, entry)
+                if thorough or 'loglikelihood' in entry:
+                    sts = ('fitted', 'fresh', 'failedfit')
+                else:
+                    sts = ('fitted', r1.choice(['fresh', 'failedfit']))
+                for state in sts:
                     r2 = ctx.subrng('entry', cfg.name, pname, entry, state)
-                    # a second valid data set drawn from the same ranges as the call arguments
+                    # valid call arguments: a second data set drawn from the same ranges as the training data
                     Xc, yc, wc, ec = gen_data(r2, n, prog[1], prog[4], cfg.ykind)
-                    # keep categorical columns inside the fitted range (they are by construction: 0..2)
-                    variants = [(False, False), (True, True)] if state == 'fitted' else [(r2.random() < 0.5, r2.random() < 0.5)]
-                    for vi, (give_w, give_e) in enumerate(variants):
+                    if state == 'fitted':
+                        variants = [(True, True, 'full' if (thorough and pname == 'sf') else 'four'), (False, False, 'one')]
+                    else:
+                        variants = [(r2.random() < 0.5, r2.random() < 0.5, 'one')]
+                    for vi, (give_w, give_e, mode) in enumerate(variants):
                         base = dict(X=Xc, y=yc if 'y' in args else None)
                         base['weights'] = wc if ('weights' in args and give_w) else None
                         base['exposure'] = ec if ('exposure' in args and give_e) else None
                         base['sample_at_X'] = None
                         extra_variants = [dict()]
                         if entry == 'fit_quantile':
-                            extra_variants = [dict(quantile=0.9, pre=False), dict(quantile=0.7, pre=True)] if state == 'fitted' else [dict(quantile=0.9, pre=False)]
+                            extra_variants = [dict(quantile=0.9, pre=False)]
+                            if state == 'fitted' and vi == 0:
+                                extra_variants.append(dict(quantile=0.75, pre=True))
                         if entry == 'sample':
-                            extra_variants = [dict(quantity='y'), dict(quantity='coef'), dict(quantity='mu', sx=True)] if state == 'fitted' else [dict(quantity='y')]
+                            extra_variants = [dict(quantity='mu')]
+                            if state == 'fitted' and vi == 0:
+                                extra_variants += [dict(quantity='coef'), dict(quantity='mu', sx=True)]
                         if entry == 'partial_dependence':
-                            extra_variants = [dict(term=0)] + ([dict(term=1)] if state == 'fitted' else [])
-                        for xv in extra_variants:
+                            extra_variants = [dict(term=0)] + ([dict(term=1)] if (state == 'fitted' and vi == 0) else [])
+                        for xi, xv in enumerate(extra_variants):
                             b = dict(base)
                             b.update({k: v for k, v in xv.items() if k in ('quantile', 'quantity', 'term')})
                             if xv.get('sx'):
                                 b['sample_at_X'] = [list(r) for r in Xc[: max(2, n // 2)]]
+                            md = mode if xi == 0 else 'one'
                             rc = ctx.subrng('entry', cfg.name, pname, entry, state, vi, sorted(xv.items()))
-                            for (arg, kind, pos, A) in corruptions(entry, args, b, prog, cfg, state, rc, full):
-                                if state != 'fitted' and kind in ('nan', 'inf', '-inf') and pos is not None:
-                                    # unfitted: one position per kind is enough
-                                    if rc.random() < 0.6:
-                                        continue
-                                if arg in ('weights', 'exposure') and A.get(arg) is not None and base.get(arg) is None and kind not in ('nan', 'inf', '-inf', 'f32over', 'short', 'long', 'len1', 'empty', 'expo_zero', 'expo_neg'):
+                            for (arg, kind, pos, A) in corruptions(entry, args, b, prog, cfg, state, rc, md):
+                                if md == 'one' and kind in ('cat_edge', 'cat_gap', 'ragged', 'f32over', 'empty') and rc.random() < 0.5:
                                     continue
                                 cont = rc.choice(['nd', 'nd', 'list'] + (['f32', 'pandas', 'col', 'fortran'] if thorough else []))
                                 if kind == 'ragged':
@@ -670,9 +709,10 @@ def entry_cases(ctx, cfgs, progs, tier, only=None):
                                 if cont == 'f32' and kind in ('f32over', 'cat_out', 'cat_edge', 'ydomain', 'yboundary'):
                                     cont = 'nd'
                                 key = (cfg.name, pname, entry, state, vi, tuple(sorted(xv.items())), arg, kind, pos, len(cases))
-                                cases.append(dict(key=key, base_valid=dict(X=b['X'], y=b['y']), cfg=cfg, pname=pname, prog=prog, entry=entry, state=state, arg=arg, kind=kind,
-                                                  pos=pos, A=A, cont=cont, xv=xv, train=(Xtr, ytr, etr if (cfg.cls == 'poisson' and vi == 1) else None),
-                                                  trainkey=(cfg.name, pname, vi if cfg.cls == 'poisson' else 0)))
+                                cases.append(dict(key=key, base_valid=dict(X=b['X'], y=b['y']), cfg=cfg, pname=pname, prog=prog, entry=entry,
+                                                  state=state, arg=arg, kind=kind, pos=pos, A=A, cont=cont, xv=xv,
+                                                  train=(Xtr, ytr, etr if (cfg.cls == 'poisson' and vi == 0) else None),
+                                                  trainkey=(cfg.name, pname, (vi == 0) if cfg.cls == 'poisson' else 0)))
     if only is not None:
         cases = [c for c in cases if list(map(str, c['key'][:9])) == list(map(str, only[:9]))]
     return cases
@@ -705,13 +745,17 @@ def exec_case(case, states):
         if entry == 'fit_quantile' and state == 'fitted':
             tr = case['train']
             if case['xv'].get('pre'):
-                # bring the model to the requested quantile on the *call* data first (valid arguments)
-                Xv = np.array(case['base_valid']['X'], dtype=float)
-                yv = np.array(case['base_valid']['y'], dtype=float)
-                try:
-                    gam.fit_quantile(Xv, yv, quantile=A['quantile'], max_iter=30, tol=0.01)
-                except ValueError:
-                    pass
+                # bring the model to the requested quantile on the *call* data first (valid arguments); cached per variant
+                pk = ('pre',) + tuple(str(x) for x in case['key'][:6])
+                if pk not in states:
+                    Xv = np.array(case['base_valid']['X'], dtype=float)
+                    yv = np.array(case['base_valid']['y'], dtype=float)
+                    try:
+                        gam.fit_quantile(Xv, yv, quantile=A['quantile'], max_iter=30, tol=0.01)
+                    except ValueError:
+                        pass
+                    states[pk] = gam
+                gam = copy.deepcopy(states[pk])
             # the data-dependent branch of fit_quantile, recomputed through the public API on the call arguments
             try:
                 Xa = np.array(A['X'], dtype=float)
@@ -720,12 +764,42 @@ def exec_case(case, states):
                 conv = abs(ratio - A['quantile']) <= 0.01
             except Exception:  # noqa
                 conv = False
+        np.random.seed(abs(hash(tuple(str(x) for x in case['key'][:9]))) % (2 ** 32) if False else _stable_seed(case['key']))
         try:
             do_call(gam, entry, A, case['cont'])
             err = None
         except Exception as e:  # noqa
             err = e
-    return exc_class(err), (str(err)[:160] if err is not None else ''), conv
+    cls = exc_class(err)
+    if cls == 'AttributeError' and _innermost(err) == 'gridsearch':
+        cls = 'AttributeError@gridsearch'
+    if cls == 'ValueError' and _raised_in(err, ('_pirls',)):
+        # the validation let the data through; the optimiser gave up (allowed by the last sentence of the property)
+        cls = 'ValueError@pirls'
+    return cls, (str(err)[:160] if err is not None else ''), conv
+
+
+def _stable_seed(key):
+    import zlib
+    return zlib.crc32('|'.join(str(x) for x in key[:9]).encode()) & 0x7fffffff
+
+
+def _innermost(err):
+    tb = err.__traceback__
+    name = None
+    while tb is not None:
+        name = tb.tb_frame.f_code.co_name
+        tb = tb.tb_next
+    return name
+
+
+def _raised_in(err, names):
+    tb = err.__traceback__
+    while tb is not None:
+        if tb.tb_frame.f_code.co_name in names:
+            return True
+        tb = tb.tb_next
+    return False
 
 
 def model_line(case, conv, fit_s):
@@ -749,6 +823,29 @@ def case_sig(case):
                 pos=case['pos'], variant=str(case['key'][4]) + str(case['key'][5]), container=case['cont'])
 
 
+_CASES = None
+_HOSTILE = None
+
+
+def _pmap(fn, items, serial=False):
+    """map over worker processes (fork: the workers inherit the generated cases); order of results = order of items"""
+    nproc = int(os.environ.get('VERIF_PROCS', '0') or 0) or min(12, os.cpu_count() or 1)
+    if serial or nproc <= 1 or len(items) <= 1:
+        return [fn(x) for x in items]
+    import multiprocessing as mp
+    with mp.get_context('fork').Pool(min(nproc, len(items))) as pool:
+        return pool.map(fn, items, chunksize=1)
+
+
+def _entry_worker(idxs):
+    cache = StateCache()
+    out = []
+    for i in idxs:
+        c = _CASES[i]
+        out.append((i, exec_case(c, cache.get(c, None))))
+    return out
+
+
 def run_entries(ctx, only=None):
     pygam = common.import_pygam()
     st = 'entry.calls'
@@ -757,13 +854,19 @@ def run_entries(ctx, only=None):
     progs = term_programs()
     cases = entry_cases(ctx, cfgs, progs, ctx.tier, only=only)
     cache = StateCache()
-    results = []
     t0 = time.time()
-    for c in cases:
-        states = cache.get(c, ctx.subrng('states'))
-        impl, msg, conv = exec_case(c, states)
-        c['A']['converged'] = conv
-        results.append((impl, msg, conv))
+    # cases are grouped by trained model; a group is executed in order by one worker (results do not depend on scheduling)
+    groups = {}
+    for i, c in enumerate(cases):
+        groups.setdefault(c['trainkey'], []).append(i)
+    global _CASES
+    _CASES = cases
+    results = [None] * len(cases)
+    for part in _pmap(_entry_worker, list(groups.values()), serial=(len(cases) < 200)):
+        for i, r in part:
+            results[i] = r
+    for c, r in zip(cases, results):
+        c['A']['converged'] = r[2]
     ctx.extra['entry_exec_s'] = round(time.time() - t0, 2)
     lines = [model_line(c, r[2], fit_descr(c['prog'], c['train'][0])) for c, r in zip(cases, results)]
     t0 = time.time()
@@ -776,7 +879,19 @@ def run_entries(ctx, only=None):
         sig = case_sig(c)
         model = out.split(' ')[0]
         step = out.split(' ')[1] if ' ' in out else '?'
-        ok_set, verdict = allowed(c['entry'], c['arg'], c['kind'], c['state'], c['prog'])
+        ok_set, verdict = allowed(c['entry'], c['arg'], c['kind'], c['state'], c['prog'], c['A'])
+        pirls = impl == 'ValueError@pirls'
+        if pirls:
+            # post-validation numerical failure inside the optimiser: a ValueError for the property, `ok` for the
+            # validation model (only re-fitting entry points get there)
+            ctx.count('post-validation ValueError', c['entry'])
+            impl_cmp = 'ok' if c['entry'] in REFIT else 'ValueError'
+            impl = 'ValueError'
+        elif impl == 'AttributeError@gridsearch':
+            # not a validation outcome at all: the search itself broke after validation passed
+            impl_cmp = 'ok'
+        else:
+            impl_cmp = impl
         ctx.count('entry', c['entry'])
         ctx.count('class', c['cfg'].name)
         ctx.count('corruption', '%s:%s' % (c['arg'], c['kind']))
@@ -784,22 +899,26 @@ def run_entries(ctx, only=None):
         ctx.count('model failing step', step)
         ctx.count('oracle verdict', verdict)
         ctx.count('state', c['state'])
+        if c['entry'] == 'fit_quantile':
+            ctx.count('fit_quantile converged branch', '%s/%s' % (c['state'], conv))
         ctx.case(st, sig, nontrivial=(c['kind'] != 'valid'), sample=dict(sig, impl=impl, model=out))
         case_desc = dict(sig, key=[str(x) for x in c['key']], args={k: _jsonable(v) for k, v in c['A'].items()}, message=msg,
                          train=dict(X=c['train'][0], y=c['train'][1], exposure=c['train'][2]))
         if impl not in ok_set:
             gap = known_gap(c['entry'], c['arg'], c['kind'], c['state'], c['A'], impl)
-            if gap is not None and model == impl:
+            if gap is not None and model == impl_cmp:
                 ctx.count('suspected-defect', gap)
                 continue
+            if impl == 'AttributeError@gridsearch':
+                impl = 'AttributeError'
             # confirm by re-execution
             impl2, msg2, _ = exec_case(c, cache.get(c, ctx.subrng('states')))
-            if impl2 == impl:
+            if impl2.split('@')[0] == impl:
                 ctx.fail(st, sig, case_desc, observed=dict(outcome=impl, message=msg), expected=sorted(ok_set),
                          oracle='property text: corrupted data -> ValueError; needs fit & unfitted -> AttributeError; never another class',
                          detail='model says %s' % out)
                 continue
-        if model != impl:
+        if model != impl_cmp:
             ctx.disagree(st, case_desc, impl, out, 'exception class differs from the model (property text allows %s)' % sorted(ok_set))
 
 
@@ -860,7 +979,7 @@ def hostile_data(cfg, n, sc, rng):
     elif sc == 'tinyY':
         if discrete:
             return None
-        s = 10.0 ** rng.choice([-150, -100, -30, -12])
+        s = 10.0 ** rng.choice([-150, -100, -30, -12, -200])
         y = [v * s for v in y]
     elif sc == 'constcol':
         X = [[0.5, 1.0] for _ in X]
@@ -927,42 +1046,66 @@ def run_hostile(ctx, only=None):
     cases = hostile_cases(ctx, list(cfgs.values()))
     if only is not None:
         cases = [c for c in cases if list(map(str, c)) == list(map(str, only))]
-    for (cname, n, sc, tp, rep) in cases:
-        cfg = cfgs[cname]
-        rng = ctx.subrng('hostile', cname, n, sc, tp, rep)
-        d = hostile_data(cfg, n, sc, rng)
-        if d is None:
-            continue
-        X, y, kw = d
+    global _HOSTILE
+    _HOSTILE = (ctx.pid, ctx.seed, cfgs, tprog)
+    chunks = [cases[k::48] for k in range(48)]
+    chunks = [c for c in chunks if c]
+    flat = []
+    for part in _pmap(_hostile_worker, chunks, serial=(len(cases) < 50)):
+        flat += part
+    flat.sort(key=lambda r: cases.index(r[0]))
+    for (key, res, msg, gap) in flat:
+        (cname, n, sc, tp, rep) = key
         sig = dict(cls=cname, n=n, scenario=sc, terms=tp, rep=rep)
-
-        def once():
-            with quiet():
-                try:
-                    g = cfg.mk(tprog[tp]())
-                    kws = {k: np.array(v, dtype=float) for k, v in kw.items()}
-                    g.fit(np.array(X, dtype=float), np.array(y, dtype=float), **kws)
-                    c = np.asarray(g.coef_, dtype=float)
-                    p = np.asarray(g.predict_mu(np.array(X, dtype=float)), dtype=float)
-                    if np.isfinite(c).all() and np.isfinite(p).all():
-                        return 'ok-finite', ''
-                    return 'ok-nonfinite', 'coef finite=%s predictions finite=%s' % (bool(np.isfinite(c).all()), bool(np.isfinite(p).all()))
-                except Exception as e:  # noqa
-                    return exc_class(e) + (':' + type(e).__name__ if isinstance(e, ValueError) else ''), str(e)[:160]
-        res, msg = once()
         ctx.count('hostile outcome', res)
         ctx.count('hostile scenario', sc)
         ctx.case(st, sig, nontrivial=(sc != 'plain'), sample=dict(sig, outcome=res))
         if res == 'ok-finite' or res.startswith('ValueError'):
             continue
-        if res == 'other:AssertionError' and overflow_gap(cfg, y):
+        if res == 'other:AssertionError' and gap:
             ctx.count('suspected-defect', 'G3 AssertionError in _initial_estimate: link(y) overflows for tiny valid targets (inverse / inv_squared link)')
             continue
-        res2, _ = once()
+        X, y, kw = hostile_data(cfgs[cname], n, sc, ctx.subrng('hostile', cname, n, sc, tp, rep))
+        res2, _ = _hostile_once(cfgs[cname], tprog[tp], X, y, kw)
         if res2 == res:
             ctx.fail(st, sig, dict(sig, X=_jsonable(X), y=_jsonable(y), kw=_jsonable({k: v for k, v in kw.items()}), replay_key=[cname, n, sc, tp, rep]),
                      observed=dict(outcome=res, message=msg), expected=['ValueError (incl. subclasses)', 'finite coef_ and finite predictions'],
                      oracle='property text, last sentence: fit on valid data raises ValueError family or returns finite coefficients and predictions')
+
+
+def _hostile_once(cfg, mkterms, X, y, kw):
+    with quiet():
+        try:
+            g = cfg.mk(mkterms())
+            kws = {k: np.array(v, dtype=float) for k, v in kw.items()}
+            g.fit(np.array(X, dtype=float), np.array(y, dtype=float), **kws)
+            c = np.asarray(g.coef_, dtype=float)
+            p = np.asarray(g.predict_mu(np.array(X, dtype=float)), dtype=float)
+            if np.isfinite(c).all() and np.isfinite(p).all():
+                return 'ok-finite', ''
+            return 'ok-nonfinite', 'coef finite=%s predictions finite=%s' % (bool(np.isfinite(c).all()), bool(np.isfinite(p).all()))
+        except Exception as e:  # noqa
+            return exc_class(e) + (':' + type(e).__name__ if isinstance(e, ValueError) else ''), str(e)[:160]
+
+
+def _hostile_worker(keys):
+    pid, seed, cfgs, tprog = _HOSTILE
+
+    class _C:
+        pass
+    o = _C()
+    o.pid, o.seed = pid, seed
+    out = []
+    for key in keys:
+        (cname, n, sc, tp, rep) = key
+        cfg = cfgs[cname]
+        d = hostile_data(cfg, n, sc, common.Ctx.subrng(o, 'hostile', cname, n, sc, tp, rep))
+        if d is None:
+            continue
+        X, y, kw = d
+        res, msg = _hostile_once(cfg, tprog[tp], X, y, kw)
+        out.append((key, res, msg, overflow_gap(cfg, y)))
+    return out
 
 
 # --------------------------------------------------------------------------------------------
